@@ -19,7 +19,7 @@ DESCRIPTION = {
              "the same serializer and use matching text/binary framing; every other handshake ends with the transport closed/aborted, no session and no exception leaving "
              "dataReceived/data_received; attached peers receive the same messages in order; no frame longer than the peer's announced maximum is written (the sender gets an "
              "exception); an over-limit incoming prefix closes the transport before the payload arrives; corruption closes the transport (WS 1002/1011, RawSocket abort) and the "
-             "session's onClose is called exactly once.  A session that took the transport in onOpen and then raised is told exactly once, too.  RawSocket limits include non powers of two; the limit that counts is the one read from each side's handshake octets.  Non-trivial = handshake differing from a valid one in one field, a message within +-1 of a limit, or an injected "
+             "session's onClose is called exactly once.  A session that took the transport in onOpen and then raised is told exactly once, too.  RawSocket limits include non powers of two; the limit that counts is the one read from each side's handshake octets.  Subprotocol negotiation is also enumerated over batched and unbatched variants of two serializers.  Non-trivial = handshake differing from a valid one in one field, a message within +-1 of a limit, or an injected "
              "corruption; enumerated handshakes count each value."),
     "assumptions": ["non-zero reserved RawSocket octets: only 'no exception, same verdict under every split' is asserted",
                     "cross-framework pairings (Twisted client <-> asyncio server) are not run: one framework per process",
